@@ -52,10 +52,12 @@ CHECKS = {
         "rule": ("Seeded histories on one topic (1-8 partitions, growing and shrinking) and one consumer group with 1-6 member connections: join, leave, abrupt disconnect, reconnect, "
                  "create/delete partitions, sends to all partitions, next + auto-commit polls without partition id by members in a seeded sequential order and in concurrent bursts of all members, "
                  "polls by the single member of a second group on the same topic (whose structure and cursor must stay untouched by everything that happens to the first), then a drain. "
+                 "In every second history a second stream holds a topic and a group with the same numeric ids (topic 4, group 6): a member joins that twin group before the main one and stays in it until its connection goes away; after every event the twin group must list exactly the connected members that joined it and split its 3 partitions among them (events join_twin_group, twin_member_disconnected, twin_group_checked). "
                  "evaluations = histories; non-trivial = messages were delivered to the group and membership or partition count changed in between; "
                  "distinct_nontrivial = distinct (cache class, partitions, members, collapsed event sequence)."),
         "assumptions": COMMON_ASSUMPTIONS + ["Members poll sequentially in a seeded order (the statement quantifies over poll orders, not over concurrent polls).",
                                              "A dropped socket is noticed by the server on its next read: the disconnect clause waits a bounded number of retries (200 x 5 ms)."],
+        "required_events": ["join", "member_disconnected", "join_twin_group", "twin_member_disconnected", "twin_group_checked"],
     },
     "C04": {
         "level": "fault_enumeration",
